@@ -204,58 +204,79 @@ func matchElement(segs []Segment, name string) bool {
 	if len(name) > 0 && name[0] == '.' && IsWild(segs[0]) && !segs[0].(Wild).MatchHidden {
 		return false
 	}
-segs:
-	for len(segs) > 0 {
-		// Find a chunk. A chunk is an optional Star followed by a run of
-		// fixed-length segments (Literal and Question).
-		var i int
-		for i = 1; i < len(segs); i++ {
-			if IsWild2(segs[i], Star, StarStar) {
+	return matchChunks(segs, name)
+}
+
+// matchChunks matches name against segs chunk by chunk. A chunk is an optional
+// Star followed by a run of fixed-length segments (Literal and Question).
+func matchChunks(segs []Segment, name string) bool {
+	if len(segs) == 0 {
+		return name == ""
+	}
+	var i int
+	for i = 1; i < len(segs); i++ {
+		if IsWild2(segs[i], Star, StarStar) {
+			break
+		}
+	}
+
+	chunk := segs[:i]
+	startsWithStar := IsWild2(chunk[0], Star, StarStar)
+	var startingStar Wild
+	if startsWithStar {
+		startingStar = chunk[0].(Wild)
+		chunk = chunk[1:]
+	}
+	segs = segs[i:]
+
+	// The earliest match of this chunk leaves the most for the remaining
+	// chunks. That is always the best choice when the remaining stars are
+	// unrestricted; when one of them has matchers, a later match of this chunk
+	// may be needed, so the remaining positions are tried too. The last chunk
+	// has to exhaust name, so all positions are tried for it as well.
+	firstMatchDecides := len(segs) > 0 && !hasRestrictedStar(segs)
+
+	// Match at the current position.
+	if ok, rest := matchFixedLength(chunk, name); ok {
+		if matchChunks(segs, rest) {
+			return true
+		}
+		if firstMatchDecides {
+			return false
+		}
+	}
+
+	if startsWithStar {
+		for i := 0; i < len(name); {
+			r, rsize := utf8.DecodeRuneInString(name[i:])
+			j := i + rsize
+			// Match name[:j] with the starting *, and the rest with chunk.
+			if !startingStar.Match(r) {
 				break
 			}
-		}
-
-		chunk := segs[:i]
-		startsWithStar := IsWild2(chunk[0], Star, StarStar)
-		var startingStar Wild
-		if startsWithStar {
-			startingStar = chunk[0].(Wild)
-			chunk = chunk[1:]
-		}
-		segs = segs[i:]
-
-		// TODO: Implement a quick path when len(segs) == 0 by matching
-		// backwards.
-
-		// Match at the current position. If this is the last chunk, we need to
-		// make sure name is exhausted by the matching.
-		ok, rest := matchFixedLength(chunk, name)
-		if ok && (rest == "" || len(segs) > 0) {
-			name = rest
-			continue
-		}
-
-		if startsWithStar {
-			// TODO: Optimize by stopping at len(name) - LB(# bytes segs can
-			// match) rather than len(names)
-			for i := 0; i < len(name); {
-				r, rsize := utf8.DecodeRuneInString(name[i:])
-				j := i + rsize
-				// Match name[:j] with the starting *, and the rest with chunk.
-				if !startingStar.Match(r) {
-					break
+			if ok, rest := matchFixedLength(chunk, name[j:]); ok {
+				if matchChunks(segs, rest) {
+					return true
 				}
-				ok, rest := matchFixedLength(chunk, name[j:])
-				if ok && (rest == "" || len(segs) > 0) {
-					name = rest
-					continue segs
+				if firstMatchDecides {
+					return false
 				}
-				i = j
 			}
+			i = j
 		}
-		return false
 	}
-	return name == ""
+	return false
+}
+
+// hasRestrictedStar returns whether segs contains a Star or StarStar with
+// matchers.
+func hasRestrictedStar(segs []Segment) bool {
+	for _, seg := range segs {
+		if IsWild2(seg, Star, StarStar) && len(seg.(Wild).Matchers) > 0 {
+			return true
+		}
+	}
+	return false
 }
 
 // matchFixedLength returns whether a run of fixed-length segments (Literal and
